@@ -335,7 +335,7 @@ def side_flip_problems(sc, phases):
 def extra_move_oracles(sc, phases, mi, k, bad):
     """merge the MOVE oracles into the verdict of judge_phases: the earliest rejected phase wins, problems of the same phase are joined"""
     n_extra = 0
-    for kk, bb in (move_info_problems(sc, phases, mi), side_flip_problems(sc, phases)):
+    for kk, bb in (side_flip_problems(sc, phases), move_info_problems(sc, phases, mi)):        # (prepended in this order: the MI problem ends up first)
         if kk is None:
             continue
         n_extra += 1
@@ -360,7 +360,7 @@ def assert_fingerprint(exc):
 
 def run_scene_families(res, tier, rng, exe, spec_exe):
     from checks import c13lib as L
-    nq = (400, 300, 400, 300, 24) if tier == 'quick' else (3000, 2000, 3000, 2500, 240)
+    nq = (400, 300, 400, 300, 16) if tier == 'quick' else (3000, 2000, 3000, 2500, 240)
     scenes = []
     if os.path.exists(SCENE_CORPUS):
         scenes += [dict(sc, corpus=True) for sc in L.parse_scripts(open(SCENE_CORPUS).read())]
